@@ -3,7 +3,7 @@
    hypothesis of the corresponding _partial theorem (i.e. a proved theorem contradicted: never expected) *)
 From Coq Require Import List NArith ZArith Bool.
 From Dae Require Import C09_Spec C09_Model.
-From Dae.gen Require Import C09_Route C09_TcpOwn.
+From Dae.gen Require Import C09_Route C09_TcpOwn C09_Pref.
 Import ListNotations.
 Open Scope N_scope.
 
@@ -485,13 +485,49 @@ Definition sig_tcp (c : tcp_case) : N * N * N * N :=
    if tcache_ok (t_cache s) then 0 else 1).
 
 (* ------------------------------------------------------------------------------------------- *)
+(* ip_version_prefer: the two resolutions of one name                                            *)
+(* ------------------------------------------------------------------------------------------- *)
+Record pref_case := {
+  pf_order : pref_order;
+  pf_cN : client_query; pf_cP : client_query;     (* the client of the non-preferred / preferred type *)
+  pf_mN : message; pf_mP : message;               (* the upstream's answers *)
+  pf_lN : client_query; pf_lP : client_query;     (* clients asking the same two questions afterwards *)
+  pf_obs : list obs_outcome                       (* replies to cN, cP, lN, lP *)
+}.
+
+Definition pref_expected (c : pref_case) : list message :=
+  let rN := pref_release pref_returns_own (pf_order c) (pf_mN c) (pf_mP c) in
+  [pref_reply (pf_cN c) rN; pref_reply (pf_cP c) (pf_mP c); pref_reply (pf_lN c) rN; pref_reply (pf_lP c) (pf_mP c)].
+
+Definition check_pref (c : pref_case) : list N :=
+  let cls := [pf_cN c; pf_cP c; pf_lN c; pf_lP c] in
+  let rcs := [m_rcode (pf_mN c); m_rcode (pf_mP c); m_rcode (pf_mN c); m_rcode (pf_mP c)] in
+  (if list_eqb (fun m b => match b with BReply m' => message_eqb m m' | _ => false end) (pref_expected c) (pf_obs c)
+   then [] else [1])
+  ++ (if forallb2 (fun cr b => match b with BReply m => reply_ok (fst cr) m && (m_rcode m =? snd cr) | _ => false end)
+                  (zip cls rcs) (pf_obs c) then [] else [2])
+  ++ (if forallb2 (fun cr m => reply_ok (fst cr) m && (m_rcode m =? snd cr)) (zip cls rcs) (pref_expected c)
+         || negb (fres_tagged (FMsg (pf_mN c)) && fres_tagged (FMsg (pf_mP c))
+                  && question_checked (cq_q (pf_cN c)) (pf_mN c) && question_checked (cq_q (pf_cP c)) (pf_mP c)
+                  && forallb (fun x => q_class (cq_q x) =? 1) cls
+                  && question_equiv (cq_q (pf_lN c)) (cq_q (pf_cN c)) && question_equiv (cq_q (pf_lP c)) (cq_q (pf_cP c)))
+      then [] else [3]).
+
+Definition sig_pref (c : pref_case) : N * N * N * N :=
+  (800 + q_type (cq_q (pf_cP c)),
+   match pf_order c with NFirstInTime => 1 | NFirstTimeout => 2 | PFirst => 3 end,
+   (if match m_ans (pf_mN c) with [] => true | _ => false end then 0 else 1)
+   + (if match m_ans (pf_mP c) with [] => true | _ => false end then 0 else 2),
+   m_rcode (pf_mN c) * 16 + m_rcode (pf_mP c)).
+
+(* ------------------------------------------------------------------------------------------- *)
 Inductive acase := AFwd (c : fwd_case) | APipe (c : pipe_case) | AUdp (c : udp_case) | ACtl (c : ctl_case)
-                 | AFcache (c : fcache_case) | AFlight (c : flight_case) | ATcp (c : tcp_case).
+                 | AFcache (c : fcache_case) | AFlight (c : flight_case) | ATcp (c : tcp_case) | APref (c : pref_case).
 
 Definition check_case (a : acase) : list N :=
   match a with AFwd c => check_fwd c | APipe c => check_pipe c | AUdp c => check_udp c | ACtl c => check_ctl c
-          | AFcache c => check_fcache c | AFlight c => check_flight c | ATcp c => check_tcp c end.
+          | AFcache c => check_fcache c | AFlight c => check_flight c | ATcp c => check_tcp c | APref c => check_pref c end.
 
 Definition case_signature (a : acase) : N * N * N * N :=
   match a with AFwd c => sig_fwd c | APipe c => sig_pipe c | AUdp c => sig_udp c | ACtl c => sig_ctl c
-          | AFcache c => sig_fcache c | AFlight c => sig_flight c | ATcp c => sig_tcp c end.
+          | AFcache c => sig_fcache c | AFlight c => sig_flight c | ATcp c => sig_tcp c | APref c => sig_pref c end.
